@@ -48,8 +48,12 @@ def gen_case(rng, tier="quick"):
   cfg = W.gen_cfg(rng)
   tree = W.gen_tree(rng)
   mode = str(rng.choice(["jit", "jit", "jit", "pmapq", "sharded"]))
-  return {"cfg": cfg, "tree": tree, "mode": mode, "T": 6 if tier == "quick" else int(rng.choice([6, 12])),
-          "family": FAMS[int(rng.integers(0, len(FAMS)))], "hseed": int(rng.integers(0, 2 ** 31))}
+  c = {"cfg": cfg, "tree": tree, "mode": mode, "T": 6 if tier == "quick" else int(rng.choice([6, 12])),
+       "family": FAMS[int(rng.integers(0, len(FAMS)))], "hseed": int(rng.integers(0, 2 ** 31))}
+  # generate_training_metrics=False: the reported errors are not observable; everything else must hold all the same, and a
+  # replaced preconditioner is held to the acceptance threshold itself
+  c["nm"] = bool(rng.random() < 0.2)
+  return c
 
 
 def materialize(case):
@@ -103,14 +107,32 @@ def root_check(cfg, S, P, err, retries, max_ev, p, max_size, quantized, rec):
   return None
 
 
+def root_check_unknown_retries(cfg, S, P, err, max_ev, p, max_size, quantized, rec):
+  """Without training metrics the number of ridge escalations (x10 per Newton retry, at most 6 attempts) is not observable:
+  the stored root must be the documented root for one of the possible ridges."""
+  msg = None
+  for retries in range(1, 7):
+    msg = root_check(cfg, S, P, err, float(retries), max_ev, p, max_size, quantized, rec)
+    if msg is None:
+      if retries > 1:
+        rec.count("roots_matched_with_escalated_ridge")
+      return None
+    if cfg.eigh:
+      break
+  return msg
+
+
 def check_case(case, rec):
   cfgd, tree, mode = case["cfg"], case["tree"], case["mode"]
   params, hist = materialize(case)
   cfg = R.Cfg(**{k: (tuple(v) if k == "lr_schedule" and v else v) for k, v in cfgd.items()})
   wit = dict(case, params=params, grads=hist)
   D = 2 if mode == "sharded" else 1
+  nm = bool(case.get("nm"))
+  if nm:
+    rec.count("cases_without_training_metrics")
   try:
-    run = H.Runner(cfgd, params, mode, D)
+    run = H.Runner(dict(cfgd, generate_training_metrics=False) if nm else cfgd, params, mode, D)
   except Exception as e:  # pylint: disable=broad-except
     kind, where = H.classify_exception(e)
     if kind == "reject":
@@ -185,6 +207,14 @@ def check_case(case, rec):
               rec.violation("preconditioner-changed-off-schedule", "leaf %s preconditioner %d changed at non-refresh step %d" % (k, i, t), wit)
               return
             continue
+          if nm:
+            if changed:
+              rec.count("roots_replaced_without_metrics")
+              msg = root_check_unknown_retries(cfg, b["stats"][i], b["precs"][i], thr, None, p, max_size, mode == "pmapq", rec)
+              if msg:
+                rec.violation("root-not-documented-power", "leaf %s %s step %d (no training metrics; error taken as the threshold): %s" % (k, shape, t, msg), wit)
+                return
+            continue
           err = float(m["errors"][i])
           accepted = (err == err) and err < thr
           if not accepted:
@@ -248,7 +278,7 @@ def check_case(case, rec):
         if not ok:
           rec.violation("diagonal-statistics", "leaf %s step %d: grafting accumulator differs from documented recurrence by %.3g x bound" % (k, t, ratio), wit)
           return
-  rec.case(util.key_hash({k: case[k] for k in ("cfg", "tree", "mode", "family", "hseed", "T")}), nontrivial, sample=sample)
+  rec.case(util.key_hash({k: case.get(k) for k in ("cfg", "tree", "mode", "family", "hseed", "T", "nm")}), nontrivial, sample=sample)
   rec.count("cases_" + mode)
   rec.count("graft_%d" % cfg.graft_type)
 
